@@ -191,6 +191,9 @@ func (e *Env) eval(x *Expr) (Bound, error) {
 	case "ident":
 		return e.evalIdent(x.Name)
 	case "sel":
+		if b, ok := e.foreignGlobal(x); ok {
+			return b, nil
+		}
 		return e.evalSel(x)
 	case "index":
 		return e.evalIndex(x)
